@@ -98,6 +98,9 @@ def wellformed(graph: Any, scenario: str, expanded: bool = True) -> list[Finding
             if runnable:
                 out.append((f"C06 {scenario} runnable clone source", f"clone source {n.params['shortname']} is runnable", {}))
             continue
+        for p in n.setup_nodes:
+            if not p.is_flat() and len(p.cloned_nodes) > 0:
+                out.append((f"C06 {scenario} depends on a clone source", f"{n.params['shortname']} depends on the clone source {p.params['shortname']}, which is never run", {}))
         own_net = nets[0].long_suffix if nets else None
         for obj in n.objects:
             if obj.key == "nets":
@@ -139,8 +142,9 @@ def signature(graph: Any) -> dict[str, Any]:
             continue
         if len(n.cloned_nodes) > 0:
             continue
-        sig[n.params["name"]] = {
-            "setup": sorted((p.params["name"], tuple(sorted(o.long_suffix for o in objs))) for p, objs in n.setup_nodes.items() if not p.is_flat()),
+        # names modulo the test set prefix: the same test can be parsed through different sets (all.., normal.gui..)
+        sig[n.setless_form] = {
+            "setup": sorted((p.setless_form, tuple(sorted(o.long_suffix for o in objs))) for p, objs in n.setup_nodes.items() if not p.is_flat()),
             "objects": sorted(o.long_suffix for o in n.objects),
             "states": sorted((k, v) for k, v in n.params.items() if k.startswith("get_state") or k.startswith("set_state")),
         }
